@@ -2,9 +2,22 @@
 // ("threw" / "returned"); undefined behaviour shows up as a crash or sanitizer abort of the replayer process.
 #include "common.hpp"
 #include <limits>
+#include <cstring>
+#include <memory>
 #include <cmath>
 
+#if defined(__SANITIZE_ADDRESS__)
+#include <sanitizer/asan_interface.h>
+#define VERIF_POISON(p, n) ASAN_POISON_MEMORY_REGION(p, n)
+#define VERIF_UNPOISON(p, n) ASAN_UNPOISON_MEMORY_REGION(p, n)
+#else
+#define VERIF_POISON(p, n) ((void) 0)
+#define VERIF_UNPOISON(p, n) ((void) 0)
+#endif
+
 namespace {
+
+const size_t GUARD = 32;
 
 struct World {
     nix::File f; nix::Block b; nix::Section s; nix::Property p; nix::Source src; nix::DataArray a, a2, pos; nix::DataFrame df;
@@ -45,6 +58,24 @@ json handle(Ctx &c, const json &rec) {
     long threw = 0, returned = 0;
 #define TRY(expr) attempt(threw, returned, [&] { expr; })
     const nix::ndsize_t BIG = std::numeric_limits<nix::ndsize_t>::max();
+    // transfer buffers live on the heap and have EXACTLY the size the call is entitled to use (count.nelms() elements, one
+    // element for an empty count): the sanitizer then sees every byte read or written beyond it
+    // Behind each buffer lie 32 guard bytes: poisoned for the sanitizer (instrumented code touching them traps at once) and
+    // filled with a pattern that is verified when the case is over (code the sanitizer does not see - libhdf5 - wrote there).
+    std::vector<std::pair<std::unique_ptr<char[]>, size_t>> heap;
+    auto XB = [&](const nix::NDSize &cnt, size_t esize) -> void * {
+        size_t n = 1;
+        try { if (cnt.size() > 0) { nix::ndsize_t m = cnt.nelms(); n = (m > 0 && m < 1000000) ? (size_t) m : 1; } } catch (...) { n = 1; }
+        heap.emplace_back(std::unique_ptr<char[]>(new char[n * esize + GUARD]), n * esize);
+        char *p = heap.back().first.get();
+        memset(p, 0, n * esize); memset(p + n * esize, 0xA5, GUARD);
+        VERIF_POISON(p + n * esize, GUARD);
+        return p;
+    };
+    struct GuardCheck { std::vector<std::pair<std::unique_ptr<char[]>, size_t>> &h;
+        ~GuardCheck() { for (auto &b : h) { char *g = b.first.get() + b.second; VERIF_UNPOISON(g, GUARD);
+                            for (size_t i = 0; i < GUARD; i++) if ((unsigned char) g[i] != 0xA5) { fprintf(stderr, "VERIF: bytes behind a transfer buffer of %zu bytes were overwritten (guard byte %zu)\n", b.second, i); abort(); } } } } guardCheck{heap};
+    auto B = [&](const nix::NDSize &cnt) -> void * { return XB(cnt, sizeof(double)); };
     if (cl == "uninit") {
         nix::Block b; nix::Section s; nix::Property p; nix::Source src; nix::DataArray a; nix::DataFrame df; nix::Tag t; nix::MultiTag mt; nix::Group g; nix::Feature ft; nix::File f;
         nix::SampledDimension sd; nix::RangeDimension rd; nix::SetDimension setd; nix::Dimension dim;
@@ -122,35 +153,56 @@ json handle(Ctx &c, const json &rec) {
         else if (kind == "prop") { TRY(w.s.getProperty(idx(1))); }
         else if (kind == "feature") { TRY(w.t.getFeature(idx(1))); }
     } else if (cl == "wrong_rank") {
-        double buf[64] = {0};
         nix::DataView dv = nix::util::taggedData(w.t, w.a);
         nix::NDSize lo({1}), hi({1, 1, 1}), none;
         if (kind == "array") {
-            if (var == "lower-read") { TRY(w.a.getData(nix::DataType::Double, buf, lo, lo)); TRY(w.a.getData(nix::DataType::Double, buf, nix::NDSize({1, 1}), lo)); TRY(w.a.getData(nix::DataType::Double, buf, lo, nix::NDSize({0, 0}))); }
-            else if (var == "higher-read") { TRY(w.a.getData(nix::DataType::Double, buf, hi, nix::NDSize({0, 0, 0}))); TRY(w.a.getData(nix::DataType::Double, buf, nix::NDSize({1, 1}), nix::NDSize({0, 0, 0}))); }
-            else if (var == "lower-write") { TRY(w.a.setData(nix::DataType::Double, buf, lo, lo)); TRY(w.a.setData(nix::DataType::Double, buf, nix::NDSize({1, 1}), lo)); TRY(w.a.dataExtent(nix::NDSize({5}))); }
-            else if (var == "higher-write") { TRY(w.a.setData(nix::DataType::Double, buf, hi, nix::NDSize({0, 0, 0}))); TRY(w.a.dataExtent(nix::NDSize({2, 2, 2}))); TRY(w.a.appendData(nix::DataType::Double, buf, nix::NDSize({1, 4, 1}), 0)); TRY(w.a.appendData(nix::DataType::Double, buf, nix::NDSize({1, 4}), 5)); }
-            else { TRY(w.a.getData(nix::DataType::Double, buf, none, none)); TRY(w.a.getData(nix::DataType::Double, buf, nix::NDSize({1, 1}), none)); std::vector<double> v; TRY(w.a.getData(v)); }
+            if (var == "lower-read") { TRY(w.a.getData(nix::DataType::Double, B(lo), lo, lo)); TRY(w.a.getData(nix::DataType::Double, B(nix::NDSize({1, 1})), nix::NDSize({1, 1}), lo)); TRY(w.a.getData(nix::DataType::Double, B(lo), lo, nix::NDSize({0, 0}))); }
+            else if (var == "higher-read") { TRY(w.a.getData(nix::DataType::Double, B(hi), hi, nix::NDSize({0, 0, 0}))); TRY(w.a.getData(nix::DataType::Double, B(nix::NDSize({1, 1})), nix::NDSize({1, 1}), nix::NDSize({0, 0, 0}))); }
+            else if (var == "lower-write") { TRY(w.a.setData(nix::DataType::Double, B(lo), lo, lo)); TRY(w.a.setData(nix::DataType::Double, B(nix::NDSize({1, 1})), nix::NDSize({1, 1}), lo)); TRY(w.a.dataExtent(nix::NDSize({5}))); }
+            else if (var == "higher-write") { TRY(w.a.setData(nix::DataType::Double, B(hi), hi, nix::NDSize({0, 0, 0}))); TRY(w.a.dataExtent(nix::NDSize({2, 2, 2}))); TRY(w.a.appendData(nix::DataType::Double, B(nix::NDSize({1, 4, 1})), nix::NDSize({1, 4, 1}), 0)); TRY(w.a.appendData(nix::DataType::Double, B(nix::NDSize({1, 4})), nix::NDSize({1, 4}), 5)); }
+            else { TRY(w.a.getData(nix::DataType::Double, B(none), none, none)); TRY(w.a.getData(nix::DataType::Double, B(nix::NDSize({1, 1})), nix::NDSize({1, 1}), none)); std::vector<double> v; TRY(w.a.getData(v)); }
         } else {
-            if (var == "lower-read") { TRY(dv.getData(nix::DataType::Double, buf, lo, lo)); }
-            else if (var == "higher-read") { TRY(dv.getData(nix::DataType::Double, buf, hi, nix::NDSize({0, 0, 0}))); }
-            else if (var == "lower-write") { TRY(dv.setData(nix::DataType::Double, buf, lo, lo)); TRY(nix::DataView bad(w.a, lo, lo)); }
-            else if (var == "higher-write") { TRY(dv.setData(nix::DataType::Double, buf, hi, nix::NDSize({0, 0, 0}))); TRY(nix::DataView bad(w.a, hi, nix::NDSize({0, 0, 0}))); }
-            else { TRY(dv.getData(nix::DataType::Double, buf, none, none)); TRY(dv.dataExtent(nix::NDSize({1, 1}))); }
+            if (var == "lower-read") { TRY(dv.getData(nix::DataType::Double, B(lo), lo, lo)); }
+            else if (var == "higher-read") { TRY(dv.getData(nix::DataType::Double, B(hi), hi, nix::NDSize({0, 0, 0}))); }
+            else if (var == "lower-write") { TRY(dv.setData(nix::DataType::Double, B(lo), lo, lo)); TRY(nix::DataView bad(w.a, lo, lo)); }
+            else if (var == "higher-write") { TRY(dv.setData(nix::DataType::Double, B(hi), hi, nix::NDSize({0, 0, 0}))); TRY(nix::DataView bad(w.a, hi, nix::NDSize({0, 0, 0}))); }
+            else { TRY(dv.getData(nix::DataType::Double, B(dv.dataExtent()), none, none)); TRY(dv.dataExtent(nix::NDSize({1, 1}))); }
+        }
+    } else if (cl == "io_shape") {
+        // raw data I/O with the count and / or offset vector left empty (or minimal), on the array as it is and under every
+        // calibration setting, for every element type; every buffer has exactly the size the call may use
+        static const nix::DataType TY[] = {nix::DataType::Double, nix::DataType::Float, nix::DataType::Int64, nix::DataType::Int32, nix::DataType::Int16, nix::DataType::UInt8, nix::DataType::Int8, nix::DataType::UInt64};
+        nix::NDSize none, off11({1, 1}), off00({0, 0}), ones({1, 1}), whole({3, 4}), row({1, 4}), win({2, 3});
+        for (int cal = 0; cal < 4; cal++) {
+            if (cal & 1) w.a.polynomCoefficients(std::vector<double>{1.0, 2.0, 0.5}); else w.a.polynomCoefficients(nix::none);
+            if (cal & 2) w.a.expansionOrigin(1.5); else w.a.expansionOrigin(nix::none);
+            nix::DataView dv(w.a, win, nix::NDSize({1, 1}));
+            for (nix::DataType ty : TY) {
+                size_t es = nix::data_type_to_size(ty);
+                auto rd = [&](const nix::NDSize &cn, const nix::NDSize &of) {
+                    if (kind == "array") { TRY(w.a.getData(ty, XB(cn, es), cn, of)); TRY(w.a.getDataDirect(ty, XB(cn, es), cn, of)); }
+                    else TRY(dv.getData(ty, XB(cn ? cn : win, es), cn, of)); };       // a view reads its whole window for an empty count
+                auto wr = [&](const nix::NDSize &cn, const nix::NDSize &of) {
+                    if (kind == "array") { TRY(w.a.setData(ty, XB(cn, es), cn, of)); } else TRY(dv.setData(ty, XB(cn ? cn : win, es), cn, of)); };
+                if (var == "empty-count") { rd(none, off11); rd(none, off00); wr(none, off11); rd(none, nix::NDSize({2, 3})); }
+                else if (var == "empty-offset") { rd(ones, none); rd(row, none); wr(ones, none); }
+                else if (var == "both-empty") { rd(none, none); wr(none, none); }
+                else if (var == "ones") { rd(ones, off11); wr(ones, off11); rd(ones, nix::NDSize({2, 3})); rd(nix::NDSize({1}), nix::NDSize({1})); }
+                else { if (kind == "array") { rd(whole, off00); wr(whole, off00); } else { rd(nix::NDSize({2, 3}), off00); wr(nix::NDSize({2, 3}), off00); } rd(row, off11); }
+            }
         }
     } else if (cl == "outside") {
-        double buf[64] = {0};
         nix::DataView dv = nix::util::taggedData(w.t, w.a);
         if (kind == "array") {
-            if (var == "offset") { TRY(w.a.getData(nix::DataType::Double, buf, nix::NDSize({1, 1}), nix::NDSize({3, 0}))); TRY(w.a.setData(nix::DataType::Double, buf, nix::NDSize({1, 1}), nix::NDSize({0, 4}))); }
-            else if (var == "count") { TRY(w.a.getData(nix::DataType::Double, buf, nix::NDSize({4, 4}), nix::NDSize({0, 0}))); TRY(w.a.setData(nix::DataType::Double, buf, nix::NDSize({3, 5}), nix::NDSize({0, 0}))); }
-            else if (var == "huge") { TRY(w.a.getData(nix::DataType::Double, buf, nix::NDSize({1, 1}), nd2(BIG, 0))); TRY(w.a.getData(nix::DataType::Double, buf, nd2(BIG, BIG), nix::NDSize({0, 0}))); TRY(w.a.dataExtent(nd2(BIG, BIG))); }
-            else { TRY(w.a.getData(nix::DataType::Double, buf, nix::NDSize({0, 0}), nix::NDSize({0, 0}))); TRY(w.a.setData(nix::DataType::Double, buf, nix::NDSize({0, 1}), nix::NDSize({0, 0}))); TRY(w.a.dataExtent(nix::NDSize({0, 0}))); TRY(w.a.getData(nix::DataType::Double, buf, nix::NDSize({1, 1}), nix::NDSize({0, 0}))); }
+            if (var == "offset") { TRY(w.a.getData(nix::DataType::Double, B(nix::NDSize({1, 1})), nix::NDSize({1, 1}), nix::NDSize({3, 0}))); TRY(w.a.setData(nix::DataType::Double, B(nix::NDSize({1, 1})), nix::NDSize({1, 1}), nix::NDSize({0, 4}))); }
+            else if (var == "count") { TRY(w.a.getData(nix::DataType::Double, B(nix::NDSize({4, 4})), nix::NDSize({4, 4}), nix::NDSize({0, 0}))); TRY(w.a.setData(nix::DataType::Double, B(nix::NDSize({3, 5})), nix::NDSize({3, 5}), nix::NDSize({0, 0}))); }
+            else if (var == "huge") { TRY(w.a.getData(nix::DataType::Double, B(nix::NDSize({1, 1})), nix::NDSize({1, 1}), nd2(BIG, 0))); TRY(w.a.getData(nix::DataType::Double, B(nd2(BIG, BIG)), nd2(BIG, BIG), nix::NDSize({0, 0}))); TRY(w.a.dataExtent(nd2(BIG, BIG))); }
+            else { TRY(w.a.getData(nix::DataType::Double, B(nix::NDSize({0, 0})), nix::NDSize({0, 0}), nix::NDSize({0, 0}))); TRY(w.a.setData(nix::DataType::Double, B(nix::NDSize({0, 1})), nix::NDSize({0, 1}), nix::NDSize({0, 0}))); TRY(w.a.dataExtent(nix::NDSize({0, 0}))); TRY(w.a.getData(nix::DataType::Double, B(nix::NDSize({1, 1})), nix::NDSize({1, 1}), nix::NDSize({0, 0}))); }
         } else if (kind == "view") {
-            if (var == "offset") { TRY(dv.getData(nix::DataType::Double, buf, nix::NDSize({1, 1}), nix::NDSize({5, 5}))); TRY(nix::DataView bad(w.a, nix::NDSize({1, 1}), nix::NDSize({3, 4}))); }
-            else if (var == "count") { TRY(dv.getData(nix::DataType::Double, buf, nix::NDSize({3, 4}), nix::NDSize({0, 0}))); TRY(nix::DataView bad(w.a, nix::NDSize({4, 5}), nix::NDSize({0, 0}))); }
-            else if (var == "huge") { TRY(dv.getData(nix::DataType::Double, buf, nd2(BIG, BIG), nix::NDSize({1, 1}))); TRY(nix::DataView bad(w.a, nix::NDSize({2, 2}), nd2(BIG, BIG))); }
-            else { TRY(dv.getData(nix::DataType::Double, buf, nix::NDSize({0, 0}), nix::NDSize({0, 0}))); TRY(nix::DataView z(w.a, nix::NDSize({0, 0}), nix::NDSize({0, 0}))); }
+            if (var == "offset") { TRY(dv.getData(nix::DataType::Double, B(nix::NDSize({1, 1})), nix::NDSize({1, 1}), nix::NDSize({5, 5}))); TRY(nix::DataView bad(w.a, nix::NDSize({1, 1}), nix::NDSize({3, 4}))); }
+            else if (var == "count") { TRY(dv.getData(nix::DataType::Double, B(nix::NDSize({3, 4})), nix::NDSize({3, 4}), nix::NDSize({0, 0}))); TRY(nix::DataView bad(w.a, nix::NDSize({4, 5}), nix::NDSize({0, 0}))); }
+            else if (var == "huge") { TRY(dv.getData(nix::DataType::Double, B(nd2(BIG, BIG)), nd2(BIG, BIG), nix::NDSize({1, 1}))); TRY(nix::DataView bad(w.a, nix::NDSize({2, 2}), nd2(BIG, BIG))); }
+            else { TRY(dv.getData(nix::DataType::Double, B(nix::NDSize({0, 0})), nix::NDSize({0, 0}), nix::NDSize({0, 0}))); TRY(nix::DataView z(w.a, nix::NDSize({0, 0}), nix::NDSize({0, 0}))); }
         } else {
             std::vector<double> v(8, 1.0);
             if (var == "offset") { TRY(w.df.writeColumn((unsigned) 0, v, 5, 1)); TRY(w.df.writeRow(5, {nix::Variant(1.0), nix::Variant(std::string("x"))})); }
